@@ -540,12 +540,19 @@ Definition fp_grp (s : sr) (n : string) : list atom :=
 Definition group_sock (s : sr) (proto p : Z) : bool :=
   match res_get (SSock proto p) (sr_res s) with Some (OGrp _) => true | _ => false end.
 Definition fp_ports (s : sr) (proto : Z) (n : string) : list atom :=
+  let used := pm_used (get_pm proto s) in
   map (fun e => APort proto (fst e))
-      (filter (fun e => String.eqb n (snd e) && negb (group_sock s proto (fst e))) (pm_used (get_pm proto s))).
+      (filter (fun e => match uget (fst e) used with
+                        | Some m => String.eqb n m && negb (group_sock s proto (fst e))
+                        | None => false
+                        end) used).
 Definition fp_name (s : sr) (n : string) : list atom :=
   match nm_get n (sr_names s) with Some c => [AName c] | None => [] end.
 Definition fp_owned (s : sr) (n : string) : list atom :=
-  flat_map (fun e => match nm_get n (ss_pxys (snd e)) with Some _ => [AOwned (fst e)] | None => [] end) (sr_sess s).
+  flat_map (fun e => match ss_get (fst e) (sr_sess s) with
+                     | Some ct => match nm_get n (ss_pxys ct) with Some _ => [AOwned (fst e)] | None => [] end
+                     | None => []
+                     end) (sr_sess s).
 
 Definition fp (s : sr) (n : string) : list atom :=
   fp_res s n ++ fp_grp s n ++ fp_ports s 0 n ++ fp_ports s 1 n ++ fp_name s n ++ fp_owned s n.
